@@ -189,6 +189,9 @@ func (w *writeQueueCallback) Rev(ctx context.Context, message bus.Message) (resp
 		req := writeEvent.Request
 		if req != nil && req.GetMetadata() != nil {
 			metadata = req.GetMetadata()
+			// A spec is bound to the metadata it was declared with: the sender attaches the
+			// spec in force to the message that carries the metadata, or there is none.
+			spec = nil
 		}
 		if req != nil && req.GetTagSpec() != nil {
 			spec = req.GetTagSpec()
